@@ -1,5 +1,27 @@
-(* C11 — property theorems (bootstrap stage; see DESIGN.md section 6). *)
-From Verif Require Import Inflate.
-Theorem C11_spec_inflater_runs : status (inflate [] [3;0]) = Done /\ out (inflate [] [3;0]) = [].
-Proof. vm_compute. split; reflexivity. Qed.
-Print Assumptions C11_spec_inflater_runs.
+(* C11 — property theorems.  Model: RModel/Reader.v.  Real blocking is observed with gated sources (DESIGN.md 6).
+   Only statements, each closed by `exact`, followed by Print Assumptions. *)
+From Verif Require Import Reader ReaderProofs InflateMono.
+Open Scope N_scope.
+
+(* once everything up to the end of the stream has been delivered the run ends without another
+   source delivery, whatever the source would do next *)
+Theorem C11_no_further_input_needed : forall dict chunks term k,
+  status (inflate dict (concat (firstn k chunks))) = Done ->
+  (rused (rrun dict chunks term) <= k)%nat /\
+  rconsumed (rrun dict chunks term) = (bitpos (inflate dict (concat (firstn k chunks))) + 7) / 8.
+Proof. exact (complete_stream_needs_no_more_input inflate_mono inflate_never_fuel). Qed.
+Print Assumptions C11_no_further_input_needed.
+
+Theorem C11_terminal_irrelevant : forall dict chunks t1 t2,
+  status (inflate dict (concat chunks)) <> NeedInput ->
+  rbytes (rrun dict chunks t1) = rbytes (rrun dict chunks t2) /\
+  rerror (rrun dict chunks t1) = rerror (rrun dict chunks t2).
+Proof. exact (terminal_irrelevant_when_decided inflate_mono inflate_never_fuel). Qed.
+Print Assumptions C11_terminal_irrelevant.
+
+(* what is decodable from the first k deliveries (in particular all data before a sync point
+   they contain) is a prefix of the final output: it never depends on later deliveries *)
+Theorem C11_delivered_prefix_is_decoded : forall dict chunks k,
+  is_prefix (out (inflate dict (concat (firstn k chunks)))) (out (inflate dict (concat chunks))).
+Proof. exact (delivered_prefix_is_decoded inflate_mono inflate_never_fuel). Qed.
+Print Assumptions C11_delivered_prefix_is_decoded.
